@@ -480,6 +480,6 @@ func submod(a, b, q uint64) uint64 {
 	return a + q - b
 }
 
-var propStat = h.NewProp("TestPropNoiseStats", h.Budget{Quick: 1200, Thorough: 15000}, genStat, runStat)
+var propStat = h.NewProp("TestPropNoiseStats", h.Budget{Quick: 800, Thorough: 6000}, genStat, runStat)
 
 func TestPropNoiseStats(t *testing.T) { propStat.Check(t) }
